@@ -4,8 +4,8 @@ import (
 	"bytes"
 	"errors"
 	"fmt"
-	"strings"
 	"math/big"
+	"strings"
 	"time"
 
 	abci "github.com/cometbft/cometbft/abci/types"
